@@ -212,12 +212,6 @@ func init() {
 	regV(apiPkg+".Reach", func(m *Machine, g *Goroutine, a []Value) Value {
 		id := cstr(a[0], "Reach")
 		m.reached[id]++
-		if m.sample == nil && m.wantSample {
-			if m.solver.checkSat() == "sat" {
-				m.sample = m.model()
-				m.sample["@reach"] = id
-			}
-		}
 		return nil
 	})
 	regV(apiPkg+".Class", func(m *Machine, g *Goroutine, a []Value) Value {
